@@ -114,6 +114,10 @@ func initBytesModels() {
 		// (dst, a, b *byte, n int): pointer form — reached only through xorBytes, which is modelled
 		panic(unsupported("xor.xorBytesSSE2 called directly"))
 	}
+	clone := func(fr *frame, args []value) value { return args[0] } // strings are immutable values here
+	externals["internal/stringslite.Clone"] = clone
+	externals["strings.Clone"] = clone
+	externals["strconv.cloneString"] = clone
 	externals["internal/bytealg.MakeNoZero"] = func(fr *frame, args []value) value {
 		n := int(fr.i.concInt(args[0]))
 		out := make([]value, n)
